@@ -223,6 +223,8 @@ theorem applyReq_path {a : Adapter} {ra ra' : RA} (h : applyReq a ra = .ok ra') 
   | trace t =>
     simp only [applyReq] at h
     split at h <;> first | (cases h; rfl) | cases h
+  | unwrap _ | count | compact | nullify => cases h; rfl
+  | boom b => cases b <;> cases h; rfl
 
 theorem applyAll_path {as : List Adapter} {ra ra' : RA} (h : applyAll as ra = .ok ra') :
     ra'.path = prefixFold (prefixesOf as) ra.path := by
@@ -284,6 +286,8 @@ theorem applyReq_other {a : Adapter} {ra ra' : RA} (h : applyReq a ra = .ok ra')
   | trace t =>
     simp only [applyReq] at h
     split at h <;> first | (cases h; exact dget_dset_ne _ _ (Ne.symm h2)) | cases h
+  | unwrap _ | count | compact | nullify => cases h; rfl
+  | boom b => cases b <;> cases h; rfl
 
 /-- headers other than `Authorization` and the harness's trace header are not touched by a chain -/
 theorem applyAll_other {as : List Adapter} {ra ra' : RA} (h : applyAll as ra = .ok ra') {k : Str}
@@ -327,6 +331,8 @@ theorem applyReq_auth {a : Adapter} {ra ra' : RA} (h : applyReq a ra = .ok ra') 
       | (cases h
          exact Or.inl ⟨rfl, dget_dset_ne _ _ xtrace_ne_auth, lastCap_dset_other _ _ cap_xtrace_ne_auth⟩)
       | cases h
+  | unwrap _ | count | compact | nullify => cases h; exact Or.inl ⟨rfl, rfl, rfl⟩
+  | boom b => cases b <;> cases h; exact Or.inl ⟨rfl, rfl, rfl⟩
 
 /-- a chain that is accepted has at most one authenticating adapter; with one, the header is its
 value; with none, the header is what the caller passed -/
@@ -367,17 +373,20 @@ theorem TraceOk_applyReq {a : Adapter} {ra ra' : RA} (h : applyReq a ra = .ok ra
   | trace t =>
     simp only [applyReq] at h
     split at h <;> first | (cases h; exact Or.inr ⟨_, dget_dset_same _ _ _⟩) | cases h
+  | unwrap _ | count | compact | nullify => cases h; exact ht
+  | boom b => cases b <;> cases h; exact ht
 
-/-- one adapter is refused only for a second `Authorization` -/
+/-- one adapter refuses only for a second `Authorization`, or because it is the refusing adapter -/
 theorem applyReq_ok_or {a : Adapter} {ra : RA} (ht : TraceOk ra.headers) :
     (∃ ra', applyReq a ra = .ok ra') ∨
-    (applyReq a ra = .error .assertion ∧ (authHdrOf a).isSome ∧ (dget ra.headers Gen.C17.authHeader).isSome) := by
+    (applyReq a ra = .error .assertion ∧ (authHdrOf a).isSome ∧ (dget ra.headers Gen.C17.authHeader).isSome) ∨
+    (a = .boom true ∧ applyReq a ra = .error .valueError) := by
   cases a with
   | pfx p => exact Or.inl ⟨_, rfl⟩
   | auth kd hd =>
     simp only [applyReq]
     by_cases hh : dhas ra.headers Gen.C17.authHeader = true
-    · right
+    · right; left
       simp [hh, authHdrOf]
       rw [← dhas_eq_isSome]; exact hh
     · left; simp [hh]
@@ -385,19 +394,25 @@ theorem applyReq_ok_or {a : Adapter} {ra : RA} (ht : TraceOk ra.headers) :
     left
     simp only [applyReq]
     rcases ht with h | ⟨s, h⟩ <;> rw [h] <;> exact ⟨_, rfl⟩
+  | unwrap _ | count | compact | nullify => exact Or.inl ⟨_, rfl⟩
+  | boom b =>
+    cases b
+    · exact Or.inl ⟨_, rfl⟩
+    · exact Or.inr (Or.inr ⟨rfl, rfl⟩)
 
 /-- progress: a chain with at most one authenticating adapter, and no `Authorization` key of the
 caller next to it, is never refused -/
 theorem applyAll_accepts (as : List Adapter) (ra : RA) (ht : TraceOk ra.headers)
+    (hb : Adapter.boom true ∉ as)
     (h : authHdrs as = [] ∨ (∃ hv, authHdrs as = [hv]) ∧ dget ra.headers Gen.C17.authHeader = none) :
     ∃ ra', applyAll as ra = .ok ra' := by
   induction as generalizing ra with
   | nil => exact ⟨ra, rfl⟩
   | cons a as ih =>
     simp only [applyAll]
-    rcases applyReq_ok_or (a := a) ht with ⟨r1, hr⟩ | ⟨_, hs, hd⟩
+    rcases applyReq_ok_or (a := a) ht with ⟨r1, hr⟩ | ⟨_, hs, hd⟩ | ⟨hab, _⟩
     · rw [hr]
-      apply ih r1 (TraceOk_applyReq hr ht)
+      apply ih r1 (TraceOk_applyReq hr ht) (fun hm => hb (List.mem_cons_of_mem _ hm))
       rcases applyReq_auth hr with ⟨ha, hd, _⟩ | ⟨hv, ha, hn, hd, _⟩
       · rcases h with h | ⟨⟨hv, h⟩, hn⟩
         · left; simpa [authHdrs, ha] using h
@@ -414,10 +429,11 @@ theorem applyAll_accepts (as : List Adapter) (ra : RA) (ht : TraceOk ra.headers)
         rcases h with h | ⟨_, hn⟩
         · simp [authHdrs, ha] at h
         · simp [hn] at hd
+    · exact absurd (hab ▸ List.mem_cons_self) hb
 
-/-- two authenticating layers: the request is refused with `AssertionError` -/
+/-- two authenticating layers (and no refusing adapter): the request is refused with `AssertionError` -/
 theorem applyAll_two_auth (as : List Adapter) (ra : RA) (ht : TraceOk ra.headers)
-    (h : 2 ≤ (authHdrs as).length) : applyAll as ra = .error .assertion := by
+    (hb : Adapter.boom true ∉ as) (h : 2 ≤ (authHdrs as).length) : applyAll as ra = .error .assertion := by
   cases hr : applyAll as ra with
   | ok ra' =>
     rcases applyAll_auth hr with ⟨hs, _⟩ | ⟨hv, hs, _⟩ <;> simp [hs] at h
@@ -427,10 +443,26 @@ theorem applyAll_two_auth (as : List Adapter) (ra : RA) (ht : TraceOk ra.headers
     | nil => simp [applyAll] at hr
     | cons a as ih =>
       simp only [applyAll] at hr
-      rcases applyReq_ok_or (a := a) ht with ⟨r1, h1⟩ | ⟨h1, _⟩
+      rcases applyReq_ok_or (a := a) ht with ⟨r1, h1⟩ | ⟨h1, _⟩ | ⟨hab, _⟩
       · rw [h1] at hr
-        exact ih r1 (TraceOk_applyReq h1 ht) hr
+        exact ih r1 (TraceOk_applyReq h1 ht) (fun hm => hb (List.mem_cons_of_mem _ hm)) hr
       · rw [h1] at hr; cases hr; rfl
+      · exact absurd (hab ▸ List.mem_cons_self) hb
+
+/-- a chain with the refusing adapter never lets a request through; whatever it raises is an
+adapter's exception, never an error invented by the loop -/
+theorem applyAll_boom (as : List Adapter) (ra : RA) (hb : Adapter.boom true ∈ as) :
+    ∃ e, applyAll as ra = .error e := by
+  induction as generalizing ra with
+  | nil => cases hb
+  | cons a as ih =>
+    simp only [applyAll]
+    cases hr : applyReq a ra with
+    | error e => exact ⟨e, rfl⟩
+    | ok r1 =>
+      rcases List.mem_cons.mp hb with h | h
+      · subst h; cases hr
+      · exact ih r1 h
 
 /-- the tracing header after a chain: the text that was there, then the tags in list order -/
 theorem applyAll_trace {as : List Adapter} {ra ra' : RA} (h : applyAll as ra = .ok ra') :
@@ -481,28 +513,70 @@ theorem applyAll_trace {as : List Adapter} {ra ra' : RA} (h : applyAll as ra = .
           rw [hs] at hs'; cases hs'
           simpa [List.append_assoc] using ih1 (s ++ t) rfl
         · cases hr
+      | unwrap _ | count | compact | nullify =>
+        cases hr
+        exact ⟨ih1, ih2⟩
+      | boom b =>
+        cases b <;> cases hr
+        exact ⟨ih1, ih2⟩
 
-theorem responses_eq (as : List Adapter) : responses as = (traceTags as).reverse := by
-  simp [responses, traceTags, List.filterMap_reverse]
+/-! ### response processors -/
 
-theorem responses_append (a b : List Adapter) : responses (a ++ b) = responses b ++ responses a := by
-  simp [responses, List.filterMap_append]
+/-- the adapters of the repository (prefix, auth) return the response as it is -/
+theorem procResp_builtin (a : Adapter) (v : J) (h : (pfxOf a).isSome ∨ (authHdrOf a).isSome) :
+    procResp a v = .ok v := by
+  cases a <;> simp [pfxOf, authHdrOf] at h <;> cases v <;> rfl
+
+theorem respFold_append (a b : List Adapter) (dec0 : J) :
+    respFold (a ++ b) dec0 = match respFold b dec0 with
+      | .ok v => respFold a v
+      | .error e => .error e := by
+  induction a with
+  | nil => simp [respFold]; cases respFold b dec0 <;> rfl
+  | cons x xs ih =>
+    simp only [List.cons_append, respFold, ih]
+    cases respFold b dec0 with
+    | ok v => rfl
+    | error e => rfl
+
+theorem respFold_single (a : Adapter) (dec0 : J) : respFold [a] dec0 = procResp a dec0 := rfl
+
+/-- as a fold: the reversed list, each processor once, applied to the decoded response -/
+theorem respFold_eq_foldl (as : List Adapter) (dec0 : J) :
+    respFold as dec0 = as.reverse.foldl (fun acc a => match acc with
+      | .ok v => procResp a v
+      | .error e => .error e) (.ok dec0) := by
+  induction as with
+  | nil => rfl
+  | cons a as ih =>
+    simp only [respFold, List.reverse_cons, List.foldl_append, List.foldl_cons, List.foldl_nil, ← ih]
+    cases respFold as dec0 <;> rfl
 
 /-! ### copies of caller headers -/
 
-theorem dget_copyHeaders_str (hd : Option UDict) (k : Str) :
-    dget (copyHeaders hd) k = none ∨ ∃ s, dget (copyHeaders hd) k = some (.str s) := by
+/-- the headers argument is absent or a dict of the caller (text values only) -/
+def CallerDict (hd : Option Dict) : Prop := ∀ d, hd = some d → ∃ u : UDict, d = ofUDict u
+
+theorem dget_ofUDict_str (u : UDict) (k : Str) :
+    dget (ofUDict u) k = none ∨ ∃ s, dget (ofUDict u) k = some (.str s) := by
+  induction u with
+  | nil => left; rfl
+  | cons kv r ih =>
+    by_cases h : kv.1 = k
+    · right; exact ⟨kv.2, by simp [ofUDict, dget, h]⟩
+    · simpa [ofUDict, dget, h] using ih
+
+theorem TraceOk_copyHeaders (hd : Option Dict) (h : CallerDict hd) : TraceOk (copyHeaders hd) := by
   cases hd with
   | none => left; rfl
   | some d =>
-    induction d with
-    | nil => left; rfl
-    | cons kv r ih =>
-      by_cases h : kv.1 = k
-      · right; exact ⟨kv.2, by simp [copyHeaders, dget, h]⟩
-      · simpa [copyHeaders, dget, h] using ih
+    obtain ⟨u, rfl⟩ := h d rfl
+    exact dget_ofUDict_str u xtrace
 
-theorem TraceOk_copyHeaders (hd : Option UDict) : TraceOk (copyHeaders hd) := dget_copyHeaders_str hd xtrace
+theorem toUDict_ofUDict (u : UDict) : toUDict (ofUDict u) = some u := by
+  induction u with
+  | nil => rfl
+  | cons kv r ih => simp [ofUDict, toUDict, HVal.text] at ih ⊢; simp [ih]
 
 /-! ### from the adapters' result to `Request.headers` -/
 
@@ -519,7 +593,7 @@ theorem withId_lastCap (s : Bool) (d : Dict) {K : Str} (h : capitalize Gen.C17.i
 theorem mkBody_lastCap (data : Body) (d : Dict) {K : Str} (h : capitalize Gen.C17.ctHeader ≠ K) :
     lastCap (mkBody data d).2 K = lastCap d K := by
   cases data with
-  | json t dump =>
+  | json v =>
     simp only [mkBody]
     split
     · rfl
@@ -529,13 +603,13 @@ theorem mkBody_lastCap (data : Body) (d : Dict) {K : Str} (h : capitalize Gen.C1
 /-- a header name that neither the id nor the content type collapses into is sent with the value of
 the last caller/adapter key that capitalises to it -/
 theorem assemble_header (impl : Impl) (ra : RA) (m : Option Str) (pd : Option UDict) (data : Body)
-    (resp : List Str) {K : Str} (h1 : capitalize Gen.C17.idHeader ≠ K) (h2 : capitalize Gen.C17.ctHeader ≠ K) :
+    (resp : Except Err J) {K : Str} (h1 : capitalize Gen.C17.idHeader ≠ K) (h2 : capitalize Gen.C17.ctHeader ≠ K) :
     dget (assemble impl ra m pd data resp).headers K = lastCap ra.headers K := by
   simp only [assemble]
   rw [dget_normalize, mkBody_lastCap _ _ h2, withId_lastCap _ _ h1]
 
 theorem assemble_keys_nodup (impl : Impl) (ra : RA) (m : Option Str) (pd : Option UDict) (data : Body)
-    (resp : List Str) : (keys (assemble impl ra m pd data resp).headers).Nodup := by
+    (resp : Except Err J) : (keys (assemble impl ra m pd data resp).headers).Nodup := by
   simp only [assemble]
   exact keys_nodup_normalize _
 
